@@ -9,6 +9,7 @@ bootstrap.ensure()
 
 ID = "C07"
 LEVEL = "exploration"
+TECHNIQUE = "runtime monitoring: real Processor with logged hook calls, payload census of the input tree, reference model"
 RULE = (
     "seeded random programs spanning a SQL engine and two iteration engines (transfers at random positions, "
     "materializations in every engine incl. directly after a transfer and doubled, chains with doomed branches, "
